@@ -174,6 +174,79 @@ def backpressure(sfl: int, cfl: int, ti: int, n_during: int, who: int) -> str:
     return verdict(untraced(_backpressure, sfl, cfl, ti, n_during, who))
 
 
+def _reuse(sfl, cfl, busy, n2):
+    """The SAME client object is used for two connections in a row. The first ends by disconnect() - with ``busy`` while a
+    POST of the client is still in flight (slow network). On the second connection everything sent by either side arrives
+    exactly once, nothing is sent that the application did not send, and nobody is disconnected until someone asks."""
+    k = Kernel()
+    srv = (ThreadedSut if sfl == 0 else AsyncSut)(k=k, async_handlers=False, ping_interval=PI, ping_timeout=PT)
+    sp = ServerPeer(srv)
+    cl = (ThreadedClientSut if cfl == 0 else AsyncClientSut)(k, sp)
+    st = dict(server=srv.flavour, client=cl.flavour, busy=bool(busy), reuse=True)
+    try:
+        h = cl.call('connect', 'http://h.example', transports=['polling'])
+        k.settle()
+        if h.exc is not None or cl.state() != 'connected':
+            return fail(PROP, 'CONNECT', 'connect: %r state %s' % (h.exc, cl.state()), **st)
+        if busy:
+            sp.hold_posts = True
+        cl.call('send', 'first')
+        k.settle()
+        cl.call('disconnect')
+        k.settle()
+        sp.hold_posts = False
+        k.settle()
+        k.run(until=k.now + PI + PT + 2)
+        dc = [e for e in cl.events if e[0] == 'disconnect']
+        if len(dc) != 1 or cl.state() != 'disconnected':
+            return fail(PROP, 'DISCONNECT-BOTH-SIDES', 'first connection: client saw %r, state %s' % (dc, cl.state()), **st)
+        n_srv, n_cl = len(srv.events), len(cl.events)
+        h = cl.call('connect', 'http://h.example', transports=['polling'])
+        k.settle()
+        if h.exc is not None or cl.state() != 'connected':
+            return fail(PROP, 'CONNECT', 'second connect of the same client: %r state %s' % (h.exc, cl.state()), **st)
+        sid2 = srv.sids()[-1]
+        for i in range(n2):
+            cl.call('send', _payload('c', i))
+            k.settle()
+        srv.app_send(sid2, 'down')
+        k.settle()
+        k.run(until=k.now + 1)
+        got_s = [a for kk, s_, a in srv.events[n_srv:] if kk == 'message' and s_ == sid2]
+        got_c = [a for kk, a in cl.events[n_cl:] if kk == 'message']
+        early = [e for e in cl.events[n_cl:] if e[0] == 'disconnect'] + [a for kk, s_, a in srv.events[n_srv:] if kk == 'disconnect' and s_ == sid2]
+        if early:
+            return fail(PROP, 'SPURIOUS-DISCONNECT', 'second connection of a reused client ended although nobody disconnected: %r' % (early,), **st)
+        if got_s != [_payload('c', i) for i in range(n2)]:
+            return fail(PROP, 'CLIENT-TO-SERVER', 'second connection: client sent %d messages, server received %r' % (n2, got_s), **st)
+        if got_c != ['down']:
+            return fail(PROP, 'SERVER-TO-CLIENT', 'second connection: client received %r' % (got_c,), **st)
+        k.run(until=k.now + 2 * (PI + 1))
+        early = [e for e in cl.events[n_cl:] if e[0] == 'disconnect']
+        if early:
+            return fail(PROP, 'IDLE-CONNECTION-DROPPED', 'second connection dropped while idle: %r' % (early,), **st)
+        cl.call('disconnect')
+        k.settle()
+        k.run(until=k.now + PI + PT + 2)
+        dc = [e for e in cl.events[n_cl:] if e[0] == 'disconnect']
+        ds = [a for kk, s_, a in srv.events[n_srv:] if kk == 'disconnect' and s_ == sid2]
+        if len(dc) != 1 or len(ds) != 1:
+            return fail(PROP, 'DISCONNECT-BOTH-SIDES', 'second connection, client disconnects: client saw %r, server saw %r' % (dc, ds), **st)
+        return ''
+    finally:
+        cl.close()
+        srv.close()
+
+
+@cond(quick=dict(timeout=120), thorough=dict(timeout=300))
+def reused_client(sfl: int, cfl: int, busy: bool, n2: int) -> str:
+    """
+    pre: 0 <= sfl <= 1 and 0 <= cfl <= 1 and 0 <= n2 <= 3
+    post: _ == ''
+    """
+    return verdict(untraced(_reuse, sfl, cfl, busy, n2))
+
+
 from vf.validate.stubs import ALL as VALIDATE  # noqa: E402  (stub-vs-real conformance, run before the obligations)
 
 
